@@ -151,44 +151,75 @@ def run_case(spec):
         user_stmt = [a for a in prep.stmt_addrs(executed_only=True) if ref.is_user_fn(ref.func_at(a))]
         rec_stmt = [a for a in user_stmt if ref.func_at(a).name in ('rec', 'ping', 'pong')]
         cursor = -1
-        for stopno in range(rng.randint(2, 5)):
-            pool = rec_stmt if (rec_stmt and rng.random() < 0.5) else user_stmt
+        hot_fn = [a for a in user_stmt if ref.func_at(a).name in ('mix', 'one', 'onerec', 'area', 'gen_id', 'apply') and len(T.by_pc()[a]) > 3]
+        for stopno in range(rng.randint(2, 4)):
+            mode = rng.random()
+            pool = hot_fn if (hot_fn and mode < 0.35) else (rec_stmt if (rec_stmt and mode < 0.7) else user_stmt)
             addr = rng.choice(pool)
             lst = T.by_pc()[addr]
             import bisect
-            remaining = len(lst) - bisect.bisect_right(lst, cursor)
+            first = bisect.bisect_right(lst, cursor)
+            remaining = len(lst) - first
             if remaining <= 0:
                 continue
-            # deep recursion: prefer a late arrival of the descent
-            occ = rng.randrange(min(remaining, 400 if ref.func_at(addr).name == 'rec' else 5))
-            if occ > 60 and rng.random() < 0.5:
-                occ = rng.randrange(60)
-            k, rep = run_to(S, ref, addr, occ, cursor, v, max_conts=500)
-            if k is None:
-                v.inconc('positioning-failed', rep)
+            # every arrival at this breakpoint is a stop whose backtrace is judged (same pc, often the same
+            # rsp, different callers); for deep recursion skip ahead first
+            skip = 0
+            if ref.func_at(addr).name == 'rec' and remaining > 20 and rng.random() < 0.6:
+                skip = rng.randrange(min(remaining - 1, 300))
+            narr = min(remaining - skip, rng.randint(2, 8))
+            r = S.cmd('break_addr', addr=addr)
+            if 'ok' not in r:
+                v.inconc('break-failed', r.get('err'))
                 break
-            cursor = k
-            how = 'breakpoint'
-            ctx = {'binary': prep.b.path, 'src': prep.b.src, 'cfg': cfg, 'history': [h for h in S.history[-12:]]}
-            # optionally move on with a few instruction/line steps first (stops after steps)
-            if rng.random() < 0.5:
+            okpos = True
+            for n_arr in range(skip + narr):
+                rep = S.cmd('cont' if S.started else 'start')
+                okv = rep.get('ok')
+                if not okv or okv.get('stop') != 'breakpoint' or okv.get('pc') != addr:
+                    v.inconc('positioning-failed', str(okv or rep.get('err')))
+                    okpos = False
+                    break
+                k = lst[first + n_arr]
+                if n_arr < skip:
+                    continue
+                pos = position(S, rep, okv['tid'])
+                if pos is None or (T.pc[k], T.rsp[k], T.tick[k]) != pos:
+                    v.inconc('positioning-landed-elsewhere')
+                    okpos = False
+                    break
+                cursor = k
+                how = 'breakpoint'
+                ctx = {'binary': prep.b.path, 'src': prep.b.src, 'cfg': cfg, 'history': [h for h in S.history[-12:]]}
+                res = judge_backtrace(S, ref, k, v, ctx, how)
+                if res is None:
+                    continue
+                bt, shadow, recf = res
+                judge_frame_info(S, ref, k, v, ctx, shadow)
+                judge_frame_selection(S, ref, k, v, ctx, bt, shadow, rng)
+                sig.append((how, min(len(shadow), 20), min(recf, 5)))
+            S.cmd('remove_addr', addr=addr)
+            if not okpos:
+                break
+            # then move on with a step and judge the stop after it
+            if rng.random() < 0.6:
                 kind = rng.choice(['stepi', 'stepi', 'step', 'finish'])
                 r = S.cmd(kind, timeout=120)
                 pos = position(S, r) if 'ok' in r else None
-                k2 = T.locate(*pos, after=k) if pos else None
+                k2 = T.locate(*pos, after=cursor) if pos else None
                 if k2 is None:
                     continue
                 k = cursor = k2
                 how = 'after-' + kind
-            res = judge_backtrace(S, ref, k, v, ctx, how)
-            if res is None:
-                continue
-            bt, shadow, recf = res
-            judge_frame_info(S, ref, k, v, ctx, shadow)
-            judge_frame_selection(S, ref, k, v, ctx, bt, shadow, rng)
-            sig.append((how, min(len(shadow), 20), min(recf, 5)))
-        v.case(signature=('c05', idx, tuple(sorted(cfg.items())), tuple(sig)),
-               sample={'program': os.path.basename(prep.b.src), 'cfg': cfg, 'stops': [{'how': h, 'depth': d, 'rec_frames': r} for h, d, r in sig]})
+                ctx = {'binary': prep.b.path, 'src': prep.b.src, 'cfg': cfg, 'history': [h for h in S.history[-12:]]}
+                res = judge_backtrace(S, ref, k, v, ctx, how)
+                if res is not None:
+                    bt, shadow, recf = res
+                    judge_frame_info(S, ref, k, v, ctx, shadow)
+                    judge_frame_selection(S, ref, k, v, ctx, bt, shadow, rng)
+                    sig.append((how, min(len(shadow), 20), min(recf, 5)))
+        v.case(signature=('c05', idx, tuple(sorted(cfg.items())), tuple(sig[:12])),
+               sample={'program': os.path.basename(prep.b.src), 'cfg': cfg, 'stops': [{'how': h, 'depth': d, 'rec_frames': r} for h, d, r in sig[:16]]})
         v.count('histories')
     except Crash as c:
         v.violation(f'crash:{c.kind}:{(c.info or {}).get("panic", {}).get("loc") if c.kind == "panic" else (c.info or {}).get("cmd")}',
